@@ -592,6 +592,12 @@ func (e *Env) evalCall(x *ECall) (TV, error) {
 			return TV{}, fmt.Errorf("str() of non-slice")
 		}
 		return TV{g.strOfBytes(e.st, v.t, v.ty), types.Typ[types.String]}, nil
+	case "foreign": // dynamic type is not one of the types this package's code names
+		v, err := argv(0)
+		if err != nil {
+			return TV{}, err
+		}
+		return TV{app(">", app("i_tag", v.t), "1000000"), tyBool}, nil
 	case "tag":
 		v, err := argv(0)
 		if err != nil {
